@@ -7,7 +7,7 @@
    Labels that are not enabled leave the state unchanged, so [forall sched] ranges over every
    interleaving, any number of commands, targets and replies.  Nothing below is bounded. *)
 From Coq Require Import Permutation.
-From Verif Require Import Common CmdQueue CmdQueue_proofs.
+From Verif Require Import Common CmdQueue CmdQueue_proofs CmdQueue_alias_proofs.
 Open Scope N_scope.
 
 (* ---- exactly once ---- *)
@@ -114,6 +114,47 @@ Theorem C12_isolation_other_command : forall s1 s2 id t p,
 Proof. exact foreign_reply_irrelevant. Qed.
 Print Assumptions C12_isolation_other_command.
 
+(* ---- identity of per-command objects: a left-over completion signal completes nobody ---- *)
+(* A responder that is blocked on the Done channel of a call which no worker of the command in
+   progress owns (its command timed out, failed to send or is long finished) stays blocked for
+   ever and the call is never owned again, whatever commands, sends, replies and time-outs follow:
+   every registration allocates a call nobody has seen ([s_next]), so the late reply to one
+   command can never complete, fail or alter another command through a shared call/channel. *)
+Theorem C12_stale_signal_completes_nobody : forall sched c p,
+  In (c, p) (s_offers (run sched)) -> unowned (run sched) c ->
+  forall ext, In (c, p) (s_offers (run (sched ++ ext))) /\ unowned (run (sched ++ ext)) c.
+Proof. exact stale_offer_forever. Qed.
+Print Assumptions C12_stale_signal_completes_nobody.
+
+(* in particular every responder still blocked when no command is in progress *)
+Theorem C12_idle_signals_are_stale : forall sched c p ext,
+  s_cur (run sched) = None -> In (c, p) (s_offers (run sched)) ->
+  In (c, p) (s_offers (run (sched ++ ext))) /\ unowned (run (sched ++ ext)) c.
+Proof. intros sched c p ext C I. apply stale_offer_forever; [exact I|apply idle_unowned, C]. Qed.
+Print Assumptions C12_idle_signals_are_stale.
+
+(* two workers never own the same call *)
+Theorem C12_calls_never_shared : forall sched k w1 w2 ws1 ws2 c,
+  s_cur (run sched) = Some k ->
+  nth_error (k_workers k) w1 = Some ws1 -> nth_error (k_workers k) w2 = Some ws2 ->
+  holds_call ws1 c = true -> holds_call ws2 c = true -> w1 = w2.
+Proof. exact calls_never_shared. Qed.
+Print Assumptions C12_calls_never_shared.
+
+(* the forced schedule played by the harness (the timer of command 1 wins the select, then the
+   late reply takes the call, then the clean-up; command 2 to another target follows): command 2
+   is completed at step 7 by its own reply 60, never by the left-over signal (0, 51). *)
+Theorem C12_late_reply_race_witness :
+  let st := hrunh alias_holds alias_script in
+  s_out st = [(mkCmd 1 [7], RSingle ETimeout); (mkCmd 2 [8], RSingle (EReply 60))] /\
+  s_offers st = [(0, 51)] /\ s_pending st = [] /\ s_cur st = None /\
+  model_when alias_holds alias_script = [4; 7] /\
+  (let mid := hrunh alias_holds (firstn 6 alias_script) in
+   In (0, 51) (s_offers mid) /\ unowned mid 0 /\
+   exists k, s_cur mid = Some k /\ k_cmd k = mkCmd 2 [8] /\ k_workers k = [WWait 1]).
+Proof. exact alias_witness. Qed.
+Print Assumptions C12_late_reply_race_witness.
+
 (* ---- pending is clean ---- *)
 Theorem C12_pending_owned : forall sched id t c,
   In ((id, t), c) (s_pending (run sched)) ->
@@ -158,6 +199,14 @@ Theorem C12_harness_runs_are_runs : forall script,
                 forall l, In l sched -> In l script \/ internal_label l = true.
 Proof. exact hrun_is_run. Qed.
 Print Assumptions C12_harness_runs_are_runs.
+
+(* the same with held steps (positions after which the harness keeps the servent mutex, so that
+   no clean-up runs before the next environment action) *)
+Theorem C12_held_harness_runs_are_runs : forall holds script,
+  exists sched, hrunh holds script = run sched /\
+                forall l, In l sched -> In l script \/ internal_label l = true.
+Proof. exact hrunh_is_run. Qed.
+Print Assumptions C12_held_harness_runs_are_runs.
 
 (* non-vacuity: a concrete schedule with two commands, a reply before the send returned, a send
    failure, a time-out racing a reply, duplicate / foreign / early / late replies; both commands
